@@ -22,10 +22,10 @@ META = {
              '(table, transform) with >= 4 concepts.'),
     'evaluation_counters': ['relations_checked_permutation', 'relations_checked_transposition',
                             'relations_checked_dup_row', 'relations_checked_dup_col',
-                            'relations_checked_full_col'],
+                            'relations_checked_full_col', 'relations_checked_deep'],
     'required_counters': ['relations_checked_permutation', 'relations_checked_transposition',
                           'relations_checked_dup_row', 'relations_checked_dup_col',
-                          'relations_checked_full_col', 'observations_recorded', 'joins_compared'],
+                          'relations_checked_full_col', 'observations_recorded', 'joins_compared', 'relations_checked_deep'],
     'shards': {'quick': 16, 'thorough': 16},
     'exhaustive': {'quick': 'all 682 tables <= 3x3 x all duplicated rows/columns x transposition',
                    'thorough': 'all tables <= 3x3, 3x4, 4x3 x all duplicated rows/columns x transposition'},
@@ -92,7 +92,51 @@ def setup(concepts, spec):
     attach.attach_ctor(concepts)
 
 
+def run_deep(concepts, tier, seed):
+    """The same 1 000+-chain listed in three row orders, and its transposes: the two FCbO generators
+    must emit the same concepts whatever the order (the lattice itself is too slow to build here)."""
+    alg = concepts.algorithms
+    logs = {}
+    for c in gen.deep(tier, seed):
+        n = c['fam'].split(':')[1]
+        ctx = common.build_or_skip(concepts, c)
+        if ctx is None:
+            continue
+        entry = {}
+        for name, fn in (('fcbo', alg.fast_generate_from), ('fcbo_dual', alg.fcbo_dual)):
+            r = call(lambda: [(frozenset(e.members()), frozenset(i.members())) for e, i in fn(ctx)])
+            if r is RAISED:
+                COL.violation('deep', f'deep:{name}-raised-on-a-row-order', 'all concepts', 'exception', {'case': c['fam']})
+                r = None
+            entry[name] = None if r is None else canon(r)
+        d = call(lambda: ctx.definition().transposed())
+        ct = call(concepts.Context, *d) if d is not RAISED else RAISED
+        if ct is not RAISED:
+            for name, fn in (('T-fcbo', alg.fast_generate_from), ('T-fcbo_dual', alg.fcbo_dual)):
+                r = call(lambda: [(frozenset(i.members()), frozenset(e.members())) for e, i in fn(ct)])
+                if r is RAISED:
+                    COL.violation('deep', f'deep:{name}-raised-on-the-transposed-table', 'all concepts', 'exception', {'case': c['fam']})
+                    r = None
+                entry[name] = None if r is None else canon(r)
+        logs.setdefault(n, {})[c['fam']] = entry
+    for n, by_order in logs.items():
+        COL.count('relations_checked_deep')
+        ref = None
+        for fam, entry in by_order.items():
+            for name, val in entry.items():
+                if val is None:
+                    continue
+                if ref is None:
+                    ref = (fam, name, val)
+                elif val != ref[2]:
+                    COL.violation('deep', 'deep:generators-disagree-across-row-orders-or-duality',
+                                  {'reference': ref[:2], 'n': len(ref[2])}, {'differs': [fam, name], 'n': len(val)})
+        if ref is not None:
+            COL.nontrivial('deep', n)
+
+
 def cases(tier, seed, spec):
+    yield {'deep_relation': True, 'fam': 'DEEP'}
     yield from gen.ctx_stream(tier, seed, with_wide=False, scale=.6 if tier == 'quick' else .4)
 
 
@@ -112,6 +156,8 @@ def permute(case, rng, rows=True, cols=True):
 
 
 def run_case(concepts, case, spec):
+    if case.get('deep_relation'):
+        return run_deep(concepts, spec['tier'], spec['seed'])
     rng = common.rng_for(case, spec)
     limit = MAXC[spec['tier']]
     ctx = common.build_or_skip(concepts, case)
